@@ -242,6 +242,57 @@ def _blind(data, depth):
     return count, bad
 
 
+# ---------------------------------------------------------------- byte sweep and length ladder
+SWEEP_OPS = [("get_byte",), ("get_char",), ("get_short",), ("get_three",), ("get_int",), ("get_bytes", 2), ("get_string",), ("get_encoded_string",),
+             ("get_fixed_string", 2, 0), ("get_fixed_string", 2, 1), ("get_fixed_encoded_string", 2, 0), ("get_fixed_encoded_string", 2, 1),
+             ("get_fixed_string", 1, 0), ("get_fixed_encoded_string", 1, 1)]
+
+
+def _byte_sweep(firsts):
+    """Every data string of length 1 and 2 over ALL 256 byte values: each read operation on a fresh reader in both modes
+    (the decoders see every byte value in every position of a one- and two-byte field)."""
+    loader.install_shims()
+    count, bad = 0, []
+    for a in firsts:
+        for data in [bytes((a,))] + [bytes((a, b)) for b in range(256)]:
+            prod = ReaderProduct(data, slice_full=False)
+            for mode in (0, 1):
+                for op in SWEEP_OPS:
+                    count += 1
+                    hist = [("mode", mode), op]
+                    st = prod.fresh()
+                    what = prod.apply(st, hist[0]) or prod.apply(st, op)
+                    if what and len(bad) < 3:
+                        bad.append({"kind": "history", "data": data, "history": hist, "what": what})
+    return count, bad
+
+
+LADDER = (8, 16, 23, 24, 25, 32, 64, 128, 255, 256, 300, 1025, 65537)
+
+
+def ladder_histories():
+    """Behaviour must not depend on the data LENGTH: long data with the break byte at the start / middle / end / absent,
+    read by every kind of operation (directly and through a slice)."""
+    out = []
+    for L in LADDER:
+        h = L // 2
+        for data in (b"A" * L, b"A" * (L - 1) + b"\xff", b"\xff" + b"A" * (L - 1), b"A" * h + b"\xff" + b"B" * (L - h - 1), b"\x80" * (L - 2) + b"\xff\x07"):
+            out.append((data, [("mode", 1), ("get_string",), ("next_chunk",), ("get_string",), ("next_chunk",), ("get_char",)]))
+            out.append((data, [("get_fixed_string", L - 1, 0), ("get_byte",), ("get_byte",)]))
+            out.append((data, [("get_bytes", L - 2), ("get_short",), ("get_string",)]))
+            out.append((data, [("mode", 1), ("get_fixed_encoded_string", L, 1), ("get_int",), ("next_chunk",), ("get_encoded_string",)]))
+            out.append((data, [("get_encoded_string",), ("get_byte",)]))
+            out.append((data, [("get_byte",), ("slice", None, None), ("mode", 1), ("get_string",), ("next_chunk",), ("get_fixed_string", 1, 1)]))
+            out.append((data, [("mode", 1), ("get_byte",), ("next_chunk",), ("slice", None, h), ("get_string",), ("get_byte",)]))
+    return out
+
+
+def _ladder_one(i):
+    loader.install_shims()
+    data, hist = ladder_histories()[i]
+    return explorer.replay(ReaderProduct(data, slice_full=False), hist)
+
+
 # ---------------------------------------------------------------- shard worker
 def _work(shard):
     datas, slice_full_len, ind_len = shard
@@ -316,7 +367,21 @@ def run(tier, seed):
                 what = f"{v['case']}: {v['what']}"
             violations.append({"key": _key_for(v), "what": what, "case": case})
 
+    res_sweep = par.pmap(_byte_sweep, par.chunks(list(range(256)), par.WORKERS * 2))
+    sweep_n = sum(r[0] for r in res_sweep)
+    for r in res_sweep:
+        for v in r[1]:
+            violations.append({"key": "byte-sweep:" + _key_for(v), "what": f"data={v['data'].hex()} history={v['history']}: {v['what']}", "case": {"kind": "history", "data": v["data"], "history": v["history"]}})
+    lad = ladder_histories()
+    lad_n = len(lad)
+    for (data, hist), what in zip(lad, par.pmap(_ladder_one, list(range(lad_n)))):
+        if what:
+            shown = data[:4].hex() + ".." + data[-4:].hex()
+            violations.append({"key": "reader-long:" + what.split(" real=")[0][:60], "what": f"data of {len(data)} bytes ({shown}) history={hist}: {what[:300]}", "case": {"kind": "history", "data": data, "history": hist}})
+    tot["ind"] += sweep_n + lad_n
     coverage = {
+        "byte_sweep_executions": sweep_n,
+        "long_data_histories": lad_n,
         "states": tot["states"],
         "transitions": tot["transitions"] + tot["ind"],
         "traces_validated_against_impl": tot["transitions"] + tot["ind"],
@@ -335,7 +400,7 @@ def run(tier, seed):
             "a state is distinct by (generic snapshot of the real reader, model state); every transition is "
             "one real call compared with the reference (return/exception class, position, remaining, mode); "
             "slices are transitions into the child reader; independence_executions are (parent op, child op) "
-            "orders replayed against two reference readers, and every history of 3 operations over an 11-op menu run WITHOUT intermediate property reads, with the data given as bytes, bytearray and memoryview (data length 2..3 quick, 2..4 thorough)"
+            "orders replayed against two reference readers, and every history of 3 operations over an 11-op menu run WITHOUT intermediate property reads, with the data given as bytes, bytearray and memoryview (data length 2..3 quick, 2..4 thorough); plus the byte sweep: every data string of length 1 and 2 over all 256 byte values x every read operation x both modes; plus a length ladder: data of 8..65537 bytes with the break byte at the start / middle / end / absent under seven histories (direct and through slices)"
         ),
         "samples": samples[:4],
     }
